@@ -226,10 +226,13 @@ class Indentation(afmformats.AFMForceDistance):
             indentation depth and determining a plateau in the
             resulting Young's modulus (fitting parameter "E").
         """
-        if "preprocessing" in kwargs:
+        if "preprocessing" in kwargs or "preprocessing_options" in kwargs:
+            # (also if only the options are given, otherwise they would
+            # be stored with the fit without having been applied)
+            preprocessing = kwargs.get("preprocessing", self.preprocessing)
             options = kwargs.get("preprocessing_options",
                                  self.preprocessing_options)
-            self.apply_preprocessing(preprocessing=kwargs["preprocessing"],
+            self.apply_preprocessing(preprocessing=preprocessing,
                                      options=options)
         # self.fit_properties is an instance of FitProperties that
         # stores previous fit kwargs. If the given kwargs are
